@@ -73,3 +73,53 @@ def overflow_prefix_ok(ref, o):
             continue
         return False
     return True
+
+
+SCALE_STACK = 20000        # words; 12000 at word size 2, where the whole state must stay below 32 KiB
+SCALE_STEPS = 3_000_000
+
+
+def scale_items(families=None):
+    """(k, tag, prog, argsets) over the scale grids of gen/scale.py, numbered for sharding"""
+    from ..gen import scale
+    k = 0
+    fams = scale.all_families() + ((scale.many_tries_programs, scale.TRIES_ARGS),)
+    for gen, argsets in fams:
+        if families and not any(f in gen.__name__ for f in families):
+            continue
+        for tag, prog in gen():
+            yield k, tag, prog, argsets
+            k += 1
+
+
+def check_scale(res, prog, args, word, tag, unchecked=False, monitors=('san', 'bal', 'fall'), src=None):
+    """one scale-grid program: committed SVM stream against RefInt (M-DIFF) and, for the monitor kinds listed, any report
+    on the committed timeline (M-SAN / M-BAL / M-FALL).  Returns True if the run was judged and clean."""
+    src = src or A.render(prog)
+    res['evaluations'] += 1
+    stack = 12000 if word == 2 else SCALE_STACK
+    case = diff.case_dict(src, args, word, stack, unchecked=unchecked, gen='scale:' + tag)
+    ref, why = diff.model_run(prog, args, word, checked=not unchecked, stack_bytes=stack * word, safe_array_bytes=stack * word // 2)
+    run = diff.compile_and_run(src, args, word=word, stack=stack, unchecked=unchecked, max_steps=SCALE_STEPS)
+    if run.kind != 'ok':
+        runner.fail(res, {'reject': 'M-DIFF', 'internal': 'M-EXC', 'asm': 'M-ASM'}[run.kind], f'scale {tag}: {run.kind}: {run.detail}', case)
+        return False
+    o = run.outcome
+    side_observe(res, run)
+    for r in o.reports:
+        if r[1] in monitors:
+            runner.fail(res, 'M-' + r[1].upper(), f'scale {tag}: {r[2]} (asm line {r[4]})', case, observed=o.brief())
+            return False
+    if o.klass in ('HALT', 'TRAP'):
+        runner.fail(res, 'M-HALT', f'scale {tag}: VM {o.klass} pc={o.halt_pc} {o.trap}', case, observed=o.brief())
+        return False
+    if ref is None or o.klass == 'TIMEOUT':
+        runner.count(res, 'model_skips' if ref is None else 'vm_timeouts')
+        return False
+    msg = diff.compare_streams(ref, o)
+    if msg:
+        runner.fail(res, 'M-DIFF', f'scale {tag}: {msg}', case, expected=ref.brief(), observed=o.brief())
+        return False
+    runner.count(res, 'scale_agree_' + tag.split('/')[0])
+    res['nontrivial'].append(runner.case_id(src, args, word, unchecked))
+    return True
